@@ -21,6 +21,8 @@ Terms are hash-consable nested tuples.  Head symbols:
 """
 from __future__ import annotations
 
+import os
+
 NONE = ("const", "NoneType", None)
 TRUE = ("const", "bool", True)
 FALSE = ("const", "bool", False)
@@ -151,6 +153,8 @@ _PREC = {"or": 1, "and": 2, "not": 3, "cmp": 4, "|": 5, "^": 6, "&": 7, "<<": 8,
 
 def show(t, limit=240):
     s = _show(t)
+    if os.environ.get("PRSA_SHOW_FULL"):
+        return s
     return s if len(s) <= limit else s[: limit - 3] + "..."
 
 
